@@ -52,3 +52,24 @@ Theorem C15_refuted_when_set_in_parent :
        /\ nth_error rs i <> Some (den ctx0 (elem_prog e)).
 Proof. exact refuted_when_set_in_parent. Qed.
 Print Assumptions C15_refuted_when_set_in_parent.
+
+(* ---- the same for the whole validation recursion (Model/ValidateAsync.v, Proofs/C13_async.v): in the report of EVERY schedule of
+   validate_deep_anwendungshandbuch the row of a free-text element is the sequential model's row for the evaluation result [ev_of c (x, Some input)],
+   and that result is computed with the ContextVar holding the element's own input -- whatever the caller's context held, whatever the siblings do *)
+From Ahb Require Import Model.EvalAhb Model.Validate Model.ValidateAsync Proofs.C13_async.
+
+Theorem C15_free_text_evaluated_with_own_input : forall (nx U : Type) (parsep : nx -> prog (vv U)) (evalp : nx -> vv U -> prog (vv U)),
+  (forall x, no_put U (parsep x)) ->
+  forall (c : ctx (vv U)) (x : nx) (input : option text),
+  ev_of nx U parsep evalp c (x, Some input) = as_res (den (upd c TEXTV (VTxt input)) (evalp x (den c (parsep x)))).
+Proof. intros nx U parsep evalp H. exact (free_text_sees_own_input nx U parsep evalp H). Qed.
+Print Assumptions C15_free_text_evaluated_with_own_input.
+
+Theorem C15_every_schedule_yields_the_sequential_report : forall (nx U : Type) (ir : nx -> text)
+    (parsep : nx -> prog (vv U)) (evalp : nx -> vv U -> prog (vv U)),
+  (forall x, no_put U (parsep x)) -> (forall x t, no_put U (evalp x t)) ->
+  forall (c : ctx (vv U)) (n : node nx) (parent : option Gen_valmaps.rvv) (soll : bool) (r : vv U),
+  steps (initial c (node_prog nx U ir parsep evalp n parent soll)) (Done r) ->
+  r = VR (validate_node (nx' nx) (ev_of nx U parsep evalp c) (reason_of nx ir) (annot nx n) parent soll).
+Proof. exact node_every_schedule. Qed.
+Print Assumptions C15_every_schedule_yields_the_sequential_report.
